@@ -2,8 +2,9 @@ import OrdModel.Proofs.IndexLiftOnSatTx
 /-
 C03 lift to reachable states, part 5: one block.
 
-* the invariant at block boundaries: `UtxoSat st` — every row of the UTXO table lists its
-  inscriptions on their sats (`EntSat`), including the null and the unbound pseudo-outputs;
+* the invariant at block boundaries: `UtxoSat st` — the unbound pseudo-output lists sat-less
+  inscriptions only, every other row of the UTXO table (real outputs, the null pseudo-output)
+  lists bound inscriptions, each on its sat (`EntSat`);
 * it starts the mid-block invariant (`BMid.start`, with `NullLen`: the ranges stored under the
   null outpoint have size `lostSats`, and `bc0A_reward`: the subsidy range has size `reward`);
 * the non-first transactions keep `BMid`, the coinbase turns it into `BEnd` (part 4);
@@ -17,17 +18,10 @@ namespace Ord.Index.OnSatLift
 open Ord Ord.Index Outcome Sched
 open Ord.Index.Insloc hiding den den_nil den_cons den_append
 
-/-- **the block-boundary invariant**: every row of the UTXO table lists its inscriptions on their
-sats -/
-@[reducible] def UtxoSat (st : State) : Prop := RowsSat st.entries st.utxo
-
-theorem InsSat.of_nil {E : List InsEntry} {ins : List (Nat × Nat)} (h : InsSat E [] ins) (R : Ranges) :
-    InsSat E R ins := by
-  intro seq off hm
-  obtain ⟨entry, h1, h2⟩ := h seq off hm
-  refine ⟨entry, h1, fun s hs => ?_⟩
-  have := h2 s hs
-  simp at this
+/-- **the block-boundary invariant**: the unbound pseudo-output lists sat-less inscriptions only;
+every other row of the UTXO table (real outputs, the null pseudo-output) lists bound inscriptions,
+each on its sat -/
+@[reducible] def UtxoSat (st : State) : Prop := TblSat st.entries st.utxo
 
 /-! ### start of the block -/
 
@@ -69,8 +63,10 @@ theorem indexTxs_noncb_steps (cfg : Cfg) (hs : cfg.indexSats = true) (blk : Bloc
 /-! ### the block-end flush -/
 
 theorem flushEntry_rows (cfg : Cfg) (st : State) (op : OutPoint) (e : UtxoEntry) (E : List InsEntry)
-    (hst : RowsSat E st.utxo) (he : EntSat E (eff st.utxo op e)) :
-    RowsSat E (flushEntry cfg st op e).utxo := by
+    (hst : TblSat E st.utxo)
+    (he : (op ≠ OutPoint.unbound → EntSat E (eff st.utxo op e)) ∧
+      (op = OutPoint.unbound → InsNone E (eff st.utxo op e).ins)) :
+    TblSat E (flushEntry cfg st op e).utxo := by
   rw [flushEntry_utxo]
   intro p hp
   rcases InsLift.mem_set_sub _ _ _ _ hp with h1 | h1
@@ -79,8 +75,8 @@ theorem flushEntry_rows (cfg : Cfg) (st : State) (op : OutPoint) (e : UtxoEntry)
 
 /-- flushing rows of real outputs: written as they are; the special rows are not touched -/
 theorem flushCache_rows_nonspecial (cfg : Cfg) (c : Cache) (st : State) (E : List InsEntry)
-    (hst : RowsSat E st.utxo) (hc : RowsSat E c) (hns : ∀ p ∈ c, p.1.isSpecial = false) :
-    RowsSat E (flushCache cfg st c).utxo ∧
+    (hst : TblSat E st.utxo) (hc : RowsSat E c) (hns : ∀ p ∈ c, p.1.isSpecial = false) :
+    TblSat E (flushCache cfg st c).utxo ∧
     ∀ op, op.isSpecial = true → AL.get (flushCache cfg st c).utxo op = AL.get st.utxo op := by
   induction c generalizing st with
   | nil => exact ⟨hst, fun _ _ => rfl⟩
@@ -88,8 +84,10 @@ theorem flushCache_rows_nonspecial (cfg : Cfg) (c : Cache) (st : State) (E : Lis
     obtain ⟨k, v⟩ := p
     rw [flushCache_cons]
     have hk : k.isSpecial = false := hns (k, v) List.mem_cons_self
-    have h1 : RowsSat E (flushEntry cfg st k v).utxo :=
-      flushEntry_rows cfg st k v E hst (by rw [eff_nonspecial v hk]; exact hc (k, v) List.mem_cons_self)
+    have h1 : TblSat E (flushEntry cfg st k v).utxo :=
+      flushEntry_rows cfg st k v E hst
+        ⟨fun _ => by rw [eff_nonspecial v hk]; exact hc (k, v) List.mem_cons_self,
+         fun hu => absurd hu (ne_unbound_of_not_special hk)⟩
     obtain ⟨a, b⟩ := ih (flushEntry cfg st k v) h1 (fun p hp => hc p (List.mem_cons_of_mem _ hp))
       (fun p hp => hns p (List.mem_cons_of_mem _ hp))
     refine ⟨a, fun op hop => ?_⟩
@@ -101,13 +99,15 @@ theorem flushCache_rows_nonspecial (cfg : Cfg) (c : Cache) (st : State) (E : Lis
 
 theorem null_isSpecial : OutPoint.null.isSpecial = true := by decide
 theorem unbound_isSpecial : OutPoint.unbound.isSpecial = true := by decide
+theorem null_ne_unbound' : OutPoint.null ≠ OutPoint.unbound := by decide
 
 /-- the pending null entry is merged behind the stored one -/
 theorem flushEntry_null_rows (cfg : Cfg) (F : State) (E : List InsEntry) (ne : UtxoEntry)
-    (hF : RowsSat E F.utxo)
+    (hF : TblSat E F.utxo)
     (hn : InsSat E (rangesAt F.utxo OutPoint.null ++ ne.ranges) ne.ins) :
-    RowsSat E (flushEntry cfg F OutPoint.null ne).utxo := by
+    TblSat E (flushEntry cfg F OutPoint.null ne).utxo := by
   apply flushEntry_rows cfg F _ _ E hF
+  refine ⟨fun _ => ?_, fun hc => absurd hc null_ne_unbound'⟩
   unfold eff
   rw [if_pos null_isSpecial]
   unfold rangesAt at hn
@@ -119,26 +119,27 @@ theorem flushEntry_null_rows (cfg : Cfg) (F : State) (E : List InsEntry) (ne : U
     rw [hg] at hn
     simp only [Option.map_some, Option.getD_some] at hn
     show InsSat E (old.ranges ++ ne.ranges) (old.ins ++ ne.ins)
-    exact InsSat.append ((hF _ (AL.mem_of_get hg)).append_ranges _) hn
+    exact InsSat.append (((hF _ (AL.mem_of_get hg)).1 null_ne_unbound').append_ranges _) hn
 
-/-- the pending unbound entry lists unbound inscriptions only -/
+/-- the pending unbound entry lists sat-less inscriptions only -/
 theorem flushEntry_unbound_rows (cfg : Cfg) (F : State) (E : List InsEntry) (ue : UtxoEntry)
-    (hF : RowsSat E F.utxo) (hu : InsSat E [] ue.ins) :
-    RowsSat E (flushEntry cfg F OutPoint.unbound ue).utxo := by
+    (hF : TblSat E F.utxo) (hu : InsNone E ue.ins) :
+    TblSat E (flushEntry cfg F OutPoint.unbound ue).utxo := by
   apply flushEntry_rows cfg F _ _ E hF
+  refine ⟨fun hc => absurd rfl hc, fun _ => ?_⟩
   unfold eff
   rw [if_pos unbound_isSpecial]
   cases hg : AL.get F.utxo OutPoint.unbound with
-  | none => exact hu.of_nil _
+  | none => exact hu
   | some old =>
-    show InsSat E (old.ranges ++ ue.ranges) (old.ins ++ ue.ins)
-    exact InsSat.append ((hF _ (AL.mem_of_get hg)).append_ranges _) (hu.of_nil _)
+    show InsNone E (old.ins ++ ue.ins)
+    exact InsNone.append ((hF _ (AL.mem_of_get hg)).2 rfl) hu
 
 theorem flush_special_rows (cfg : Cfg) (F : State) (E : List InsEntry) (n u : Option UtxoEntry)
-    (hF : RowsSat E F.utxo)
+    (hF : TblSat E F.utxo)
     (hn : ∀ ne, n = some ne → InsSat E (rangesAt F.utxo OutPoint.null ++ ne.ranges) ne.ins)
-    (hu : ∀ ue, u = some ue → InsSat E [] ue.ins) :
-    RowsSat E (flushCache cfg F (specialOf n u)).utxo := by
+    (hu : ∀ ue, u = some ue → InsNone E ue.ins) :
+    TblSat E (flushCache cfg F (specialOf n u)).utxo := by
   cases n with
   | none =>
     cases u with
@@ -220,7 +221,7 @@ theorem indexUtxoEntries_utxoSat (cfg : Cfg) (hs : cfg.indexSats = true) (st : S
       have htri := endState_tri cfg blk true bcE
       have hEu : (endState cfg blk true bcE).1.utxo = bcE.st.utxo := congrArg Tri.utxo htri
       have hEe := InsLift.endState_entries cfg blk true bcE
-      show RowsSat (flushCache cfg _ _).entries (flushCache cfg _ _).utxo
+      show TblSat (flushCache cfg _ _).entries (flushCache cfg _ _).utxo
       rw [InsLift.flushCache_entries, hEe, flushCache_append]
       obtain ⟨f1, f2⟩ := flushCache_rows_nonspecial cfg bcE.cache (endState cfg blk true bcE).1 bcE.st.entries
         (by rw [hEu]; exact mE.tbl) mE.cache mE.cacheNS
@@ -255,7 +256,7 @@ theorem applyBlock_utxoSat (cfg : Cfg) (hs : cfg.indexSats = true) (st : State) 
     simp only at h
     have hc := InsLift.applyBlock_after cfg blk a1 ev1 st' ev h
     have h1 := indexUtxoEntries_utxoSat cfg hs st blk a1 ev1 hb hcb hon hnl hU hu
-    show RowsSat st'.entries st'.utxo
+    show TblSat st'.entries st'.utxo
     rw [InsLift.insCore_utxo hc, InsLift.insCore_entries hc]
     exact h1
 
